@@ -805,8 +805,8 @@ def compress_rule(ctx, syn):
     def tsel(r_, h, m):
         return EnumVal("TextSelector", [r_, h, EnumVal(m)])
 
-    def asel(h, off):   # off: None | ("w",) | ("p", i)
-        payload = None if off is None else some(("tsel-of", h, off))
+    def asel(h, off, mode="BeginEnd"):   # off: None | ("w",) | ("p", i); mode: the alignment the offset was given in
+        payload = None if off is None else some(("RES", ("tsel-of", h, off), EnumVal(mode)))
         return EnumVal("AnnotationSelector", [h, payload])
 
     def rtext(r_, b, e):
@@ -821,17 +821,19 @@ def compress_rule(ctx, syn):
             return [("text", sel.args[0], sel.args[1], sel.args[2].name)]
         if isinstance(sel, EnumVal) and sel.name == "AnnotationSelector":
             off = sel.args[1]
-            cls = "none" if off is None else ("whole" if off[1][2] == ("w",) else "part%d" % off[1][2][1])
-            return [("ann", None, sel.args[0], cls)]
+            if off is None:
+                return [("ann", None, sel.args[0], "none")]
+            o_ = off[1][1][2]
+            return [("ann", None, sel.args[0], ("whole" if o_ == ("w",) else "part%d" % o_[1]) + ":" + off[1][2].name)]
         if isinstance(sel, StructVal) and sel.tyname == "RangedTextSelector":
             return [("text", sel["resource"], h, "BeginBegin") for h in range(sel["begin"], sel["end"] + 1)]
         if isinstance(sel, StructVal) and sel.tyname == "RangedAnnotationSelector":
-            return [("ann", None, h, "whole" if sel["with_text"] else "none") for h in range(sel["begin"], sel["end"] + 1)]
+            return [("ann", None, h, ("whole:" + exp_mode) if sel["with_text"] else "none") for h in range(sel["begin"], sel["end"] + 1)]
         raise Unknown("selector %r" % (sel,))
 
     def offset_of(sel):
         if isinstance(sel, EnumVal) and sel.name == "AnnotationSelector" and sel.args[1] is not None:
-            off = sel.args[1][1][2]
+            off = sel.args[1][1][1][2]
             return some(WHOLE if off == ("w",) else PARTS[off[1]])
         if isinstance(sel, StructVal) and sel.tyname == "RangedAnnotationSelector":
             return some(WHOLE) if sel["with_text"] else None
@@ -842,10 +844,22 @@ def compress_rule(ctx, syn):
     hooks["offset"] = lambda ev, recv, args, node, env: offset_of(recv)
     hooks["call:Offset::whole"] = lambda ev, recv, args, node, env: WHOLE
     hooks["is_whole"] = lambda ev, recv, args, node, env: (recv == WHOLE) if isinstance(recv, StructVal) else NotImplemented
+    # the alignment the real expansion (SelectorIter::get_internal_ranged_item) gives to the items of a ranged annotation selector with text
+    exp_mode = "BeginBegin"
+    gi = [f for f in syn.fns if f.name == "get_internal_ranged_item" and f.file == "src/selector.rs"]
+    if len(gi) == 1:
+        for c_ in walk(gi[0].body):
+            if c_.get("k") == "call" and unparse(c_["func"]).endswith("Selector::AnnotationSelector") and len(c_["args"]) == 2:
+                m_ = re.search(r"OffsetMode::(\w+)(\(\))?\)+$", unparse(c_["args"][1]))
+                if m_ and m_.group(1) != "default":
+                    exp_mode = m_.group(1)
+    else:
+        ctx.anchor_missing(r, "SelectorIter::get_internal_ranged_item")
+    r.notes.append("items of a ranged annotation selector with text are expanded with OffsetMode::%s" % exp_mode)
     lasts = [tsel(r_, 3, m) for r_ in (0, 1) for m in modes] + [rtext(0, 2, 3), rtext(1, 2, 3)] + \
-            [asel(3, None), asel(3, ("w",))] + [asel(3, ("p", i)) for i in range(len(PARTS))] + [rann(2, 3, False), rann(2, 3, True)]
+            [asel(3, None)] + [asel(3, ("w",), m) for m in modes] + [asel(3, ("p", i)) for i in range(len(PARTS))] + [rann(2, 3, False), rann(2, 3, True)]
     nexts = [tsel(r_, h, m) for r_ in (0, 1) for h in (4, 5, 3) for m in modes] + \
-            [asel(h, o) for h in (4, 5, 3) for o in [None, ("w",)] + [("p", i) for i in range(len(PARTS))]]
+            [asel(h, None) for h in (4, 5, 3)] + [asel(h, ("w",), m) for h in (4, 5, 3) for m in modes] + [asel(h, ("p", i)) for h in (4, 5, 3) for i in range(len(PARTS))]
     stmt_let = {"k": "let", "pat": {"k": "pat", "p": "ident", "name": "substitute", "s": "mut substitute", "mut": True, "byref": False}, "init": {"k": "path", "path": ["None"]}}
     block = {"k": "block", "stmts": [stmt_let, {"k": "exprstmt", "e": target, "semi": True}, {"k": "exprstmt", "e": {"k": "path", "path": ["substitute"]}, "semi": False}]}
     reported = set()
@@ -896,7 +910,10 @@ def expand_rule(ctx, syn):
         return
     fn = fs[0]
     ctx.functions_analysed.update([fn.qual, th[0].qual, rh[0].qual])
-    BB = EnumVal("BeginBegin")
+    # the alignment a compressed item had: the compression arms of subselectors() name it (OffsetMode::X in their patterns), default otherwise
+    subs_ = [f for f in syn.fns if f.name == "subselectors" and (f.self_ty or "") == "AnnotationStore"]
+    named = set(re.findall(r"Selector::AnnotationSelector\(\w+,Some\(\(_,_,OffsetMode::(\w+)\)\)\)", unparse(subs_[0].body).replace(" ", ""))) if subs_ else set()
+    BB = EnumVal(sorted(named)[0] if len(named) == 1 else "BeginBegin")
     targets = {
         "TextSelector": (EnumVal("TextSelector", [7, 40, EnumVal("EndEnd")]), (7, 40)),
         "AnnotationSelector+offset": (EnumVal("AnnotationSelector", [2, some((8, 41, EnumVal("BeginEnd")))]), (8, 41)),
